@@ -2125,6 +2125,9 @@ def route_specs(rng):
                                                     'simplex-conj', 'sumc-conj', 'infconv-conj',
                                                     'vecmult-conj', 'quadform-conj')]
     out += [['route', 'nonneg', 'rn3^2'], ['route', 'op', ['GroupL1Norm', 'rn3^2', 2], 'sub', 0.5]]
+    for k in ('rn3', 'discr4_cell0.25'):
+        out += [['route', 'invalid', k, w] for w in INVALID_KINDS]
+        out += [['route', 'projfn', k, w] for w in ('proj_l1', 'proj_simplex', 'box-unbounded')]
     return out
 
 
@@ -2153,7 +2156,7 @@ def route_tag(spec):
         return 'route/getitem/' + ('index' if isinstance(spec[3], int) else 'slice')
     if name == 'op':
         return 'route/op/' + spec[3]
-    if name in ('simple', 'noprox'):
+    if name in ('simple', 'noprox', 'invalid', 'projfn'):
         return 'route/{}/{}'.format(name, spec[3])
     return 'route/' + name
 
@@ -2252,6 +2255,79 @@ def build_route(spec):
     raise ValueError('unknown route ' + str(name))
 
 
+INVALID_KINDS = ('g:proximal_l1', 'g:proximal_l2', 'g:proximal_l1_l2',   # (proximal_l2_squared has no such check)
+                 'g:proximal_convex_conj_l1', 'g:proximal_convex_conj_l2', 'g:proximal_convex_conj_l2_squared',
+                 'g:proximal_convex_conj_l1_l2', 'g:proximal_convex_conj_kl',
+                 'g:proximal_convex_conj_kl_cross_entropy', 'box:lower>upper', 'quad:a<0', 'quad:u',
+                 'argscale:complex')
+
+
+def route_boundary_check(spec, rng):
+    """Strata without a Case: inadmissible arguments of the public factories must be refused with the
+    documented exception; the public projection functions called without `out`, and the box
+    proximal without bounds, must return the proximal point.  Problem text or None."""
+    import odl
+    import odl.solvers.functional.default_functionals as S
+    import odl.solvers.nonsmooth.proximal_operators as PO
+    name, skey, which = spec[1], spec[2], spec[3]
+    sp = zoo()[skey]
+    n = fsize(sp)
+    if name == 'noprox':
+        f = noprox_functional(skey, which)
+        xe = unflat(sp, dvec(rng, n, 1, 8))
+        val = 0.0 if which == 'infconv' else float(f(xe))   # InfimalConvolution: no _call
+        try:
+            f.proximal
+        except NotImplementedError:
+            return None if val == val else 'f(x) is NaN'
+        return 'a functional without proximal: f.proximal raised nothing (NotImplementedError expected)'
+    if name == 'invalid':
+        other = odl.rn(n + 1).one()
+        if which.startswith('g:'):
+            ps = odl.ProductSpace(sp, 2)
+            tgt = ps if 'l1_l2' in which else sp
+            call, exp = (lambda: getattr(PO, which[2:])(tgt, g=other)), TypeError
+        elif which == 'box:lower>upper':
+            call, exp = (lambda: PO.proximal_box_constraint(sp, lower=1.0, upper=0.5)), ValueError
+        elif which == 'quad:a<0':
+            call, exp = (lambda: PO.proximal_quadratic_perturbation(PO.proximal_l1(sp), a=-1.0)), ValueError
+        elif which == 'quad:u':
+            call, exp = (lambda: PO.proximal_quadratic_perturbation(PO.proximal_l1(sp), a=1.0, u=[1.0] * n)), TypeError
+        else:
+            call, exp = (lambda: PO.proximal_arg_scaling(PO.proximal_l1(sp), 1j)), ValueError
+        try:
+            call()
+        except exp:
+            return None
+        except Exception as e:  # noqa
+            return 'raised {} instead of {}: {}'.format(type(e).__name__, exp.__name__, str(e)[:120])
+        return 'inadmissible argument accepted ({} expected)'.format(exp.__name__)
+    # projfn: compare with the proximal of the indicator functional (judged by the oracle elsewhere)
+    xl = dvec(rng, n, -16, 16, 4)
+    x = unflat(sp, xl)
+    if which == 'box-unbounded':
+        p, ref = PO.proximal_box_constraint(sp)(1.0)(x), x
+    elif which == 'proj_l1':
+        p, ref = PO.proj_l1(x, 2.0), None
+        z = S.IndicatorLpUnitBall(odl.rn(n), 1)
+        q = flat(p)
+        if abs(float(np.sum(np.abs(q)))) > 2.0 * (1 + 1e-12) or flat(x) is q:
+            return 'proj_l1(x, 2) has 1-norm {!r} > 2'.format(float(np.sum(np.abs(q))))
+        # optimality in the Euclidean norm against the scaled ball's own projection
+        ref = 2.0 * odl.rn(n).element(flat(z.proximal(1.0)(odl.rn(n).element(np.asarray(xl) / 2.0))))
+        ref = unflat(sp, flat(ref))
+    else:
+        p = PO.proj_simplex(x, 2.0)
+        ref = unflat(sp, flat(S.IndicatorSimplex(odl.rn(n), 2.0).proximal(1.0)(odl.rn(n).element(xl))))
+    if p not in sp:
+        return 'result is not an element of the space'
+    dev = float(np.max(np.abs(flat(p) - flat(ref))))
+    if not dev <= 1e-9 * max(1.0, float(np.max(np.abs(np.asarray(xl))))):
+        return '{} without `out` returned {} but the proximal of the indicator gives {} (x = {})'.format(
+            which, [round(float(v), 9) for v in flat(p)[:6]], [round(float(v), 9) for v in flat(ref)[:6]], xl)
+    return None
+
+
 def noprox_functional(skey, which):
     import odl
     import odl.solvers.functional.default_functionals as S
@@ -2325,29 +2401,20 @@ def run_routes(ctx):
     recs, lines = [], []
     for spec in route_specs(rng):
         tag = route_tag(spec)
-        if spec[1] == 'noprox':
-            # a functional that does NOT offer a proximal must say so (NotImplementedError), and
-            # must still be evaluable: the boundary of the property's quantifier
+        if spec[1] in ('noprox', 'invalid', 'projfn'):
+            # the boundary of the property's quantifier: a functional that does NOT offer a proximal
+            # says so (NotImplementedError) and stays evaluable; inadmissible factory arguments are
+            # refused; the public projection functions without `out`
             ctx.case(None)
-            desc = {'spec': spec, 'space': spec[2], 'x_class': 'route'}
+            desc = {'spec': spec, 'space': spec[2], 'x_class': 'route', 'boundary_seed': rng.getrandbits(32)}
             try:
-                f = noprox_functional(spec[2], spec[3])
-                xe = unflat(zoo()[spec[2]], dvec(rng, fsize(zoo()[spec[2]]), 1, 8))
-                val = 0.0 if spec[3] == 'infconv' else float(f(xe))   # InfimalConvolution: no _call
-                try:
-                    f.proximal
-                    got = 'no exception'
-                except NotImplementedError:
-                    got = None
-                if got is None and val == val:
-                    ctx.hit(tag)
-                else:
-                    report(ctx, 'prox {} space={} sigma=float check=no-proximal'.format(tag, spec[2]),
-                           'a functional without proximal: f.proximal gave {} (NotImplementedError '
-                           'expected), f(x) = {!r}'.format(got, val), desc)
+                prob = route_boundary_check(spec, _random.Random(desc['boundary_seed']))
             except Exception as e:  # noqa
-                report(ctx, 'prox {} space={} sigma=float check=no-proximal'.format(tag, spec[2]),
-                       'raised {}: {}'.format(type(e).__name__, str(e)[:160]), desc)
+                prob = 'raised {}: {}'.format(type(e).__name__, str(e)[:160])
+            if prob is None:
+                ctx.hit(tag)
+            else:
+                report(ctx, 'prox {} space={} sigma=float check=boundary'.format(tag, spec[2]), prob, desc)
             continue
         try:
             case = build(spec)
@@ -2489,6 +2556,11 @@ def replay(ctx, case):
     """Re-run one recorded case on the real code."""
     if 'spec' not in case:
         return None
+    if case['spec'][0] == 'route' and case['spec'][1] in ('noprox', 'invalid', 'projfn'):
+        try:
+            return route_boundary_check(case['spec'], _random.Random(case.get('boundary_seed', 0)))
+        except Exception as e:  # noqa
+            return 'raised {}: {}'.format(type(e).__name__, str(e)[:160])
     if 'z' in case and 'x' in case:     # stream group-objective
         return group_check(case['spec'], case['sigma'], case['x'], case['z'])[1]
     try:
